@@ -616,11 +616,15 @@ func spliceSite(pk *packages.Package, overlay map[string][]byte, h *helperInfo, 
 	if kind == "lit" {
 		// nothing to check: the call expression itself is replaced
 	} else if is, ok := parent.(*ast.IfStmt); ok && is.Init == stmt {
-		if kind != "expr" && kind != "assign" {
+		if kind != "expr" && kind != "assign" && kind != "nested" {
 			return textEdit{}, nil, "unsupported call position (if init)"
 		}
 		ifStmt = is
 		replaceNode = is
+		if kind == "nested" {
+			// the call is an operand inside the init statement: evaluated first and once, like the init's own call
+			kind = "assign"
+		}
 		kind = "ifinit-" + kind
 	} else if kind != "ifcond" {
 		switch parent.(type) {
